@@ -37,7 +37,7 @@ impl Block {
         /*@il_wf*/ final(self).block_il_wf(),
         /*@wf*/ final(self).block_wf(),
         /*@effect*/ final(self).pushed_op(*old(self), Operation::Assign { dst, src }),
-//@ after 0 `self.push(Instruction::assign(index, dst, src));`
+//@ before 0 `}`
     proof {
         Block::lemma_push_fresh_wf(*old(self), *self, self.instructions@.last());
         lemma_pushed_op_il_wf(*old(self), *self, Operation::Assign { dst, src });
@@ -52,7 +52,7 @@ impl Block {
         /*@il_wf*/ final(self).block_il_wf(),
         /*@wf*/ final(self).block_wf(),
         /*@effect*/ final(self).pushed_op(*old(self), Operation::Load { dst, index: address }),
-//@ after 0 `self.push(Instruction::load(index, dst, address));`
+//@ before 0 `}`
     proof {
         Block::lemma_push_fresh_wf(*old(self), *self, self.instructions@.last());
         lemma_pushed_op_il_wf(*old(self), *self, Operation::Load { dst, index: address });
@@ -77,7 +77,7 @@ impl Block {
         /*@il_wf*/ final(self).block_il_wf(),
         /*@wf*/ final(self).block_wf(),
         /*@effect*/ final(self).pushed_op(*old(self), Operation::Branch { target: dst }),
-//@ after 0 `self.push(Instruction::branch(index, dst));`
+//@ before 0 `}`
     proof {
         Block::lemma_push_fresh_wf(*old(self), *self, self.instructions@.last());
         lemma_pushed_op_il_wf(*old(self), *self, Operation::Branch { target: dst });
@@ -92,7 +92,7 @@ impl Block {
         /*@il_wf*/ final(self).block_il_wf(),
         /*@wf*/ final(self).block_wf(),
         /*@effect*/ final(self).pushed_op(*old(self), Operation::Intrinsic { intrinsic }),
-//@ after 0 `self.push(Instruction::intrinsic(index, intrinsic));`
+//@ before 0 `}`
     proof {
         Block::lemma_push_fresh_wf(*old(self), *self, self.instructions@.last());
         lemma_pushed_op_il_wf(*old(self), *self, Operation::Intrinsic { intrinsic });
@@ -106,7 +106,7 @@ impl Block {
         /*@il_wf*/ final(self).block_il_wf(),
         /*@wf*/ final(self).block_wf(),
         /*@effect*/ final(self).pushed_op(*old(self), Operation::Nop { placeholder: None }),
-//@ after 0 `self.push(Instruction::nop(index));`
+//@ before 0 `}`
     proof {
         Block::lemma_push_fresh_wf(*old(self), *self, self.instructions@.last());
         lemma_pushed_op_il_wf(*old(self), *self, Operation::Nop { placeholder: None });
